@@ -36,6 +36,15 @@ CLAIMS = {
  "C07": dict(engine="coq-layer-m", tech="Coq proof about an executable model of integrate's time loop + direct predicate on the implementation",
    text="Full for the model: proved (axiom-free, all splits, all layouts) that n1+n2 steps = n1 steps then n2 steps from the returned state, that manual stepping equals integrate, that column k is the state after k steps, and that the returned state is the last column's state exactly when prod(checkpoint_lengths) = steps; the padded case is a machine-checked refutation (known finding F6). Tied to the code by all splits / manual stepping / return_states on sampled models.",
    note=M_NOTE, ref="DESIGN.md §5 C07"),
+ "C08": dict(engine="coq-layer-m", tech="Coq proof about executable models of the recording table, per-type synapse arrays, scatter-add and the time loop + direct predicate on the implementation",
+   text="Full for the model: Coq theorems (axiom-free) that record() keeps call order, adds exactly the requested rows once; that a synapse addressed by its global edge index is found at its rank inside the per-type array for ANY interleaving of synapse types (old behaviour refuted); that column k is the state after k steps and input sample k is consumed by step k+1 for any checkpoint layout; that scatter-add sums all and only the stimuli of a compartment; that t_max pads with zeros / truncates. The code is tied by networks with forced type interleavings where every compartment and synapse identifies itself by its initial value, by exact step-by-step references for stimulus timing/charge/additivity/t_max, clamps and the data_* variants.",
+   note=M_NOTE, ref="DESIGN.md §5 C08"),
+ "C09": dict(engine="coq-layer-m", tech="Coq proof about per-type arrays / scatter-add / permutation invariance and about the traced synapse functions + direct predicate on the implementation",
+   text="Full for the model: Coq theorems that per-edge parameters/states reach exactly their synapse in the per-type arrays, that the current into a compartment is the sum over exactly the synapses posting on it, that any permutation of the creation order gives the same sums, and (Layer G, regenerated) that zero conductance means zero current, that the synaptic state reads only the pre voltage, that currents are affine in the post voltage and converted with the area they are given. The code is tied by sampled wirings (autapses, fan-in, interleaved types) against a reference built from the published kinetics folded into the exact cable reference, by permuted creation orders, zero conductances vs cells alone and table-vs-array comparison.",
+   note=M_NOTE + " The secant linearisation of the step shifts both pre and post voltage; the reference mirrors that (see DESIGN.md).", ref="DESIGN.md §5 C09"),
+ "C10": dict(engine="coq-layer-m", tech="Coq proof about an executable model of the scatter semantics and trainable groups + correspondence/direct predicate on the implementation",
+   text="Full for the model: Coq theorems (axiom-free) that scattering a value onto in-range rows changes exactly those rows, that a trainable shared by groups of any (equal or unequal) sizes reaches all and only the rows of its group while every other row keeps its value, and that the padding of shorter groups keeps the set of rows; the old -1 padding stays refuted. The code is tied by comparing set / data_set / make_trainable (arrays and simulations), untouched rows and write_trainables on sampled views, and by running the implementation's own index table through the model.",
+   note=M_NOTE, ref="DESIGN.md §5 C10"),
  "C20": dict(engine="coq-layer-m", tech="Coq proof about an executable model of the index layouts + correspondence with the implementation",
    text="Full for the model: Coq theorems (axiom-free, all population sizes incl. n_pre != n_post, all matrices, every number of drawn connections incl. 0 and 1) that fully_connect yields exactly pre x post once each, sparse_connect is total, connectivity_matrix_connect yields exactly the True entries, and the presynaptic site is the first compartment of its cell. The model is compared with jaxley.connect on enumerated sizes/matrices/seeds on every run; the two repaired defects stay refuted in the model of the old code.",
    note=M_NOTE, ref="DESIGN.md §5 C20"),
